@@ -97,6 +97,12 @@ def handle_rs(c):
     fullrank = np.linalg.matrix_rank(X) == nterms
     scale = max(1.0, float(np.max(np.abs(y))))
     res, ok, msg = [], True, ''
+    if coefs is not None and fullrank:
+        # certificate of the read-back least-squares solve: the returned coefficients fit the data
+        resid = float(np.max(np.abs(X @ betas - y.ravel())))
+        if resid > 1e-8 * scale:
+            ok, msg = False, 'ResponseSurface: data of the quadratic %s are not fitted, max residual %g' % (
+                [str(v) for v in coefs], resid)
     for qp in c['queries']:
         xq = np.array([float(fr(v)) for v in qp])
         p = float(np.ravel(s.predict(xq.copy()))[0])
@@ -156,7 +162,12 @@ def handle_nn(c):
             xq = np.array([float(fr(v)) for v in qp])
             if any(np.allclose(xq, xi) for xi in x):
                 continue
-            jac = np.array(s.linearize(xq.copy()), dtype=float).reshape(y.shape[1], n)
+            try:
+                jac = np.array(s.linearize(xq.copy()), dtype=float).reshape(y.shape[1], n)
+            except Exception as e:   # noqa
+                ok, msg = False, 'NearestNeighbor(%s).linearize raised %s: %s (%d input(s), %d output(s), query %s)' % (
+                    typ, type(e).__name__, str(e)[:120], n, y.shape[1], xq.tolist())
+                break
             d, good = smooth_fd(lambda z: s.predict(z), xq, 1e-5, yr)
             if np.any(np.abs(d - jac)[good] > 1e-3 * max(yr, float(np.max(np.abs(d))))):
                 ok, msg = False, 'NearestNeighbor(%s) linearize at %s is %r, difference quotient of predict %r' % (
